@@ -27,3 +27,14 @@ def _(row):
     types(row="u32")
     raises_never()
     ensures("hamming_weight", result == sum32(row))
+
+
+@sampler("pandora.matching_cost.matching_cost.AbstractMatchingCost.point_interval")
+def _(rng):
+    import types as _t
+    nx = int(rng.integers(1, 9))
+    frac = float([0.0, 0.0, 0.25, 0.5, 0.75][rng.integers(0, 5)])
+    disp = float(rng.integers(-10, 10)) + frac
+    nxr = nx if frac == 0.0 else nx - 1
+    return {"self": None, "img_left": _t.SimpleNamespace(sizes={"col": nx}), "img_right": _t.SimpleNamespace(sizes={"col": nxr}),
+            "disp": disp}
